@@ -1,7 +1,7 @@
 SPECIFICATION Spec
 CONSTANTS
-  Cats = {2, 3}
-  Types = {1}
+  Cats = {0, 2}
+  Types = {0, 1}
   Langs = {0, 3}
   Names = {0, 2}
   Feats = {1}
@@ -9,7 +9,7 @@ CONSTANTS
   Vars = {1}
   Vals = {1}
   MaxIds = 3
-  MaxFeats = 1
+  MaxFeats = 0
   MaxFields = 0
   MaxVals = 1
   EmitMin = 0
